@@ -119,6 +119,7 @@ type Result struct {
 	LoadSecs    float64        `json:"load_secs"`
 	ExecSecs    float64        `json:"exec_secs"`
 	SolveSecs   float64        `json:"solve_secs"`
+	Retried     int            `json:"retried_undecided"`
 	VCs         int            `json:"vcs"`
 	FeasCalls   int            `json:"feasibility_calls"`
 	Strings     map[string]string `json:"string_codes"`
@@ -264,6 +265,14 @@ func main() {
 	for _, n := range uf.Baseline {
 		claimedOnly[n] = true
 	}
+	// the frame obligation of a function is claimed with the function's other clauses
+	for _, n := range uf.Baseline {
+		for _, suf := range []string{".ensures#", ".loop[", ".safety:", ".overflow", ".decreases", ".requires-at-call"} {
+			if i := strings.LastIndex(n, suf); i > 0 {
+				claimedOnly[n[:i]+".frame"] = true
+			}
+		}
+	}
 	var all []*Obligation
 	var skipped []*Obligation
 	for _, o := range e.Obls {
@@ -322,6 +331,45 @@ func main() {
 		}()
 	}
 	wg.Wait()
+	// Second chance for undecided obligations: a loaded machine turns the wall-clock solver
+	// limit into a fraction of the CPU time, and an undecided obligation is reported as a
+	// violation.  Re-run the first few with three times the limit and a quarter of the jobs.
+	{
+		var retry []*Obligation
+		for _, o := range all {
+			if o.Result != nil && o.Result.Status != "sat" && o.Result.Status != "unsat" && o.Result.Status != "skipped" && len(retry) < 12 {
+				retry = append(retry, o)
+			}
+		}
+		rj := *jobs / 4
+		if rj < 1 {
+			rj = 1
+		}
+		rsem := make(chan struct{}, rj)
+		for _, o := range retry {
+			wg.Add(1)
+			rsem <- struct{}{}
+			go func() {
+				defer wg.Done()
+				defer func() { <-rsem }()
+				first := o.Result.Secs
+				r := Solve(o.File, *timeout*3, *seed+1, false)
+				r.Secs += first
+				if r.Status == "sat" {
+					r.Model = map[string]string{}
+					for k, v := range r.Values {
+						if k < len(o.GetValues) {
+							r.Model[o.GetValues[k].String()] = v
+						}
+					}
+				}
+				r.Retried = true
+				o.Result = &r
+			}()
+		}
+		wg.Wait()
+		res.Retried = len(retry)
+	}
 	res.SolveSecs = time.Since(t2).Seconds()
 
 	// aggregate per clause name
